@@ -102,6 +102,19 @@ DriftStep ==
                 <<"VarianceRule", E.bad = 0 /\ (D > 1 \/ VarOK)>> >>)
     /\ ln' = ln + 1 /\ UNCHANGED <<tid, fin>>
 
+\* non-lattice grids (thin, positions quantised to 1e-5): ONEONE declaration with a = 0, finite variation:
+\* process drift + sum_k x_k rate_k = first moment of the atoms beyond +-1 inside the truncation
+AbsQ(x) == IF x < 0 THEN -x ELSE x
+JumpMeanQ == SumSeq([k \in 1..Len(E.x_q) |-> E.x_q[k] * E.q[k]])
+OuterQ == SumSeq([k \in 1..Len(E.atoms_q) |->
+            IF E.lo_q < E.atoms_q[k][1] /\ E.atoms_q[k][1] < E.hi_q /\ AbsQ(E.atoms_q[k][1]) > E.one_q
+            THEN E.atoms_q[k][1] * E.atoms_q[k][2] ELSE 0])
+TotalW == SumSeq([k \in 1..Len(E.atoms_q) |-> E.atoms_q[k][2]])
+DriftQStep ==
+    /\ More /\ E.e = "DriftQ"
+    /\ Judge(<< <<"MeanIsExact", E.bad = 0 /\ AbsQ(E.drift_q + JumpMeanQ - OuterQ) <= TotalW + 2>> >>)
+    /\ ln' = ln + 1 /\ UNCHANGED <<tid, fin>>
+
 \* real models (thin): quantised rates are non-negative and sum to the reported intensity within the stated slack
 Abs(x) == IF x < 0 THEN -x ELSE x
 RealStep ==
@@ -118,6 +131,6 @@ Finish ==
     /\ IF bad = 0 THEN PrintT(<<"ACCEPT", Id>>) ELSE TRUE
     /\ fin' = TRUE /\ UNCHANGED <<tid, ln, bad>>
 
-TraceNext == RateStep \/ RateNdStep \/ BucketStep \/ DriftStep \/ RealStep \/ RaiseStep \/ Finish
+TraceNext == RateStep \/ RateNdStep \/ BucketStep \/ DriftStep \/ DriftQStep \/ RealStep \/ RaiseStep \/ Finish
 TraceSpec == TraceInit /\ [][TraceNext]_tvars
 =============================================================================
